@@ -43,6 +43,9 @@ func (a *ConstFuncParamAnnotator) ShouldVisit(node ast.Node) bool {
 	switch node.(type) {
 	case *ast.FuncDecl, *ast.DeclStmt:
 		return true
+	case *ast.FuncDef:
+		// the body of a definition is analysed at its forward declaration (see VisitFuncDecl)
+		return false
 	default:
 		return a.currentDecl != nil
 	}
@@ -94,6 +97,15 @@ func (a *ConstFuncParamAnnotator) VisitFuncDecl(decl *ast.FuncDecl) ast.VisitRes
 	a.CurrentModule.Ast.AddAttachement(decl, attachement)
 	a.currentDecl = decl
 
+	if ast.IsForwardDecl(decl) {
+		// analyse the body of the definition right here: calls that stand between the declaration
+		// and the definition must see the final result, and when the definition is reached
+		// currentDecl may long be a different function
+		ast.VisitNode(a, decl.Def.Body, nil)
+		a.currentDecl = nil
+		return ast.VisitSkipChildren
+	}
+
 	return ast.VisitRecurse
 }
 
@@ -105,7 +117,10 @@ func (a *ConstFuncParamAnnotator) VisitFuncCall(call *ast.FuncCall) ast.VisitRes
 
 	currentParams := maps.Keys(a.currentParams)
 	for _, param := range call.Func.Parameters {
-		if isConst[param.Name.Literal] {
+		// while a function is still being analysed (recursive call) its reference parameters
+		// are only assumed to be const, a later statement may still mutate them
+		stillAssumed := call.Func == a.currentDecl && param.Type.IsReference
+		if isConst[param.Name.Literal] && !stillAssumed {
 			continue
 		}
 
